@@ -167,6 +167,24 @@ class SymCtx(BaseCtx):
         """library-returned boolean -> SymBool"""
         return _sb(x)
 
+    def iff(self, a, b):
+        return _sb(a) == _sb(b)
+
+    def implies(self, a, b):
+        return (~_sb(a)) | _sb(b)
+
+    def neg(self, a):
+        return ~_sb(a)
+
+    def ne(self, a, b):
+        return _sb(a != b)
+
+    def ge(self, a, b):
+        return _sb(a >= b)
+
+    def gt(self, a, b):
+        return _sb(a > b)
+
     def sqrt(self, x):
         from .alg import alg_sqrt
         return alg_sqrt(Alg.of(x))
@@ -278,6 +296,24 @@ class ConcCtx(BaseCtx):
 
     def truth(self, x):
         return _cb(x)
+
+    def iff(self, a, b):
+        return _cb(a) == _cb(b)
+
+    def implies(self, a, b):
+        return (not _cb(a)) or _cb(b)
+
+    def neg(self, a):
+        return not _cb(a)
+
+    def ne(self, a, b):
+        return not self.eq(a, b)
+
+    def ge(self, a, b):
+        return self.le(b, a)
+
+    def gt(self, a, b):
+        return self.lt(b, a)
 
     def sqrt(self, x):
         return math.sqrt(max(x, 0.0))
